@@ -13,6 +13,8 @@ import (
 	"net/http"
 	"net/http/httptest"
 	"strings"
+	"unicode"
+	"unicode/utf8"
 
 	jsonrpc "github.com/filecoin-project/go-jsonrpc"
 
@@ -92,7 +94,8 @@ func OracleFormatter(f Fmt) func(ns, m string) string {
 	}
 	return func(ns, m string) string {
 		if f.Lower && len(m) > 0 {
-			m = strings.ToLower(m[:1]) + m[1:]
+			r, n := utf8.DecodeRuneInString(m)
+			m = string(unicode.ToLower(r)) + m[n:]
 		}
 		if f.Ns {
 			return ns + sep + m
@@ -112,7 +115,8 @@ func Formatter(f Fmt) jsonrpc.MethodNameFormatter {
 	// custom separator: namespace + sep + method (lower-first handled like the built-in)
 	return func(ns, m string) string {
 		if f.Lower && len(m) > 0 {
-			m = strings.ToLower(m[:1]) + m[1:]
+			r, n := utf8.DecodeRuneInString(m)
+			m = string(unicode.ToLower(r)) + m[n:]
 		}
 		if f.Ns {
 			return ns + f.Sep + m
